@@ -456,7 +456,14 @@ def poisson(rep, prog):
             if _predicate_guard(prog, fn, fi, pl, lmin):
                 rep.ok("C13.poisson-min-distance", prog, fn, pl, "insertion reached only if the local predicate holds, which returns false when |p - candidate|^2 < l_min*l_min for any point of the neighbourhood of the same grid")
                 continue
-            rep.violation("C13.poisson-min-distance", prog, fn, pl, "unguarded insertion", "place_object into the Poisson grid is not guarded by the acceptance flag")
+            if _algorithm_guard(prog, fn, fi, pl, lmin):
+                rep.ok("C13.poisson-min-distance", prog, fn, pl, "the inserted point is the one std::find_if found with a predicate that is std::none_of(neighbourhood of the same grid, |p - candidate|^2 < l_min*l_min) (or false)")
+                continue
+            loop_ = fi.enclosing(pl, ("ForStmt", "CXXForRangeStmt", "WhileStmt"))
+            inner_guards = [g_ for g_ in fi.guards(pl, stop_at=loop_)] if loop_ is not None else fi.guards(pl)
+            if inner_guards:
+                raise AnalysisBroken("poisson_disk_sampling: the insertion at line %s runs under '%s', a form of acceptance test this checker does not decide" % (pl.get("l"), short(inner_guards[-1][0], 70)))
+            rep.violation("C13.poisson-min-distance", prog, fn, pl, "unguarded insertion", "place_object into the Poisson grid is not guarded by any acceptance test: every candidate is inserted, whatever its distance to the points already accepted")
             continue
         # the flag: initialised true; cleared inside a loop over get_neighborhood(...) under  d2 < lmin2
         init_true = False
@@ -533,6 +540,95 @@ def poisson(rep, prog):
         else:
             rep.violation("C13.poisson-min-distance", prog, fn, pl, "insertion not guarded by the distance test",
                           "grid insertion at line %s is not guarded by an all-neighbours test against l_min^2 (%s): sample points closer than one minimum edge length can be accepted" % (pl.get("l"), why if not good else "flag not initialised to true"))
+
+
+def _algorithm_guard(prog, fn, fi, pl, lmin):
+    """if(it != last) place_object(*it) with it = std::find_if(first, last, pred) and pred(c) = [false or] std::none_of(N.begin(), N.end(),
+    [](p){ return |p - c|^2 < l_min^2; }) with N the neighbourhood of the grid inserted into"""
+    from ..model import def_chain
+
+    def lam_of(e):
+        e = strip(e)
+        for x in def_chain(fn, e, depth=3):
+            for y in walk(x):
+                if y.get("k") == "LambdaExpr":
+                    return y
+        return None
+    for cond, pol in fi.guards(pl):
+        c = strip(cond)
+        if not (pol and c.get("k") in ("BinaryOperator", "CXXOperatorCallExpr") and c.get("op") == "!="):
+            continue
+        its = [y["ref"]["did"] for y in walk(c) if y.get("k") == "DeclRefExpr" and (y.get("ref") or {}).get("dk") == "Var"]
+        for v in walk(fn["body"]):
+            if not (v.get("k") == "Var" and v.get("did") in its and isinstance(v.get("init"), dict)):
+                continue
+            ff = [x for x in walk(v["init"]) if x.get("k") == "CallExpr" and x.get("callee", "").startswith("std::find_if") and len(call_args(x)) == 3]
+            if not ff:
+                continue
+            # the inserted object is what the iterator designates
+            if not any(y.get("k") == "DeclRefExpr" and (y.get("ref") or {}).get("did") == v["did"] for a_ in call_args(pl)[:1] for d_ in def_chain(fn, a_, depth=3) for y in walk(d_)):
+                continue
+            pred = lam_of(call_args(ff[0])[2])
+            if pred is None or not pred.get("params"):
+                continue
+            cand = pred["params"][0]["did"]
+            rets = [r for r in walk(pred["body"], into_lambdas=False) if r.get("k") == "ReturnStmt" and isinstance(r.get("value"), dict)]
+            good = 0
+            leaves = []
+
+            def arms(x):
+                x = strip(x)
+                while x.get("k") in ("ParenExpr", "ExprWithCleanups") and x.get("c"):
+                    x = strip(x["c"][0])
+                if x.get("k") == "ConditionalOperator" and len(x.get("c", [])) == 3:
+                    arms(x["c"][1])
+                    arms(x["c"][2])
+                else:
+                    leaves.append(x)
+            for r in rets:
+                arms(r["value"])
+            for rv in leaves:
+                if rv.get("k") == "CXXBoolLiteralExpr" and rv.get("v") is False:
+                    continue
+                neg = False
+                if rv.get("k") == "UnaryOperator" and rv.get("op") == "!":
+                    neg, rv = True, strip(rv["c"][0])
+                if not (rv.get("k") == "CallExpr" and ((rv.get("callee", "").startswith("std::none_of") and not neg) or (rv.get("callee", "").startswith("std::any_of") and neg)) and len(call_args(rv)) == 3):
+                    good = -100
+                    break
+                b_, e_, inner = call_args(rv)
+                bt, et = render(b_).replace(" ", ""), render(e_).replace(" ", "")
+                if not (bt.endswith(".begin()") or bt.endswith(".cbegin()")) or not (et.endswith(".end()") or et.endswith(".cend()")) or bt.rsplit(".", 1)[0] != et.rsplit(".", 1)[0]:
+                    good = -100
+                    break
+                src = [x for d_ in def_chain(fn, call_obj(strip(b_)) or b_, depth=3) for x in walk(d_) if x.get("k") == "CXXMemberCallExpr" and x.get("callee", "").endswith("::get_neighborhood")]
+                if not src or render(call_obj(src[0])) != render(call_obj(pl)):
+                    good = -100
+                    break
+                il = lam_of(inner)
+                if il is None or not il.get("params"):
+                    good = -100
+                    break
+                ip = il["params"][0]["did"]
+                irets = [r2 for r2 in walk(il["body"]) if r2.get("k") == "ReturnStmt" and isinstance(r2.get("value"), dict)]
+                ok_inner = len(irets) == 1
+                if ok_inner:
+                    g = strip(irets[0]["value"])
+                    while g.get("k") in ("ParenExpr", "ExprWithCleanups") and g.get("c"):
+                        g = strip(g["c"][0])
+                    ok_inner = False
+                    if g.get("k") == "BinaryOperator" and g.get("op") in ("<", "<="):
+                        lhs, rhs = strip(g["c"][0]), strip(g["c"][1])
+                        sq = [y for y in walk(lhs) if y.get("k") == "CXXMemberCallExpr" and y.get("callee") == "vec3::squared_norm"]
+                        refs = {y["ref"]["did"] for y in walk(lhs) if y.get("k") == "DeclRefExpr"}
+                        ok_inner = bool(sq) and _is_lmin_squared(fn, rhs, lmin) and ip in refs and cand in refs
+                if not ok_inner:
+                    good = -100
+                    break
+                good += 1
+            if good >= 1:
+                return True
+    return False
 
 
 def _predicate_guard(prog, fn, fi, pl, lmin):
